@@ -334,7 +334,7 @@ def handleE2E (sel : String) (toks : List String) : String :=
         let wantU := ou ++ cfg.users.map specUser
         let wantG := og ++ cfg.groups.map specGroup
         (if loadUsers x.passwd = some wantU then [] else [tr "passwd"]) ++
-        (if (loadGroups x.group).map (·.map normGroup) = some (wantG.map normGroup) then [] else [tr "group"]) ++
+        (if loadGroups x.group = some wantG then [] else [tr "group"]) ++
         e2eHomes x (ou.filterMap fun u => if u.home = devNull then none else some u.home) (cfg.users.map specUser) ++
         (let wantRunAs : Text := if cfg.runAs = [] then [] else
             match wantU.find? (fun u => u.name = cfg.runAs) with
